@@ -233,6 +233,19 @@ func Association[K comparable, V any](arguments ...any) col.AssociationLike[K, V
 	return association
 }
 
+// convert returns a parsed value as a value of the type parameter.  A nil
+// literal is the nil value of an interface type such as any; for every other
+// mismatch the type assertion panics.
+func convert[T any](value any) T {
+	if value == nil {
+		var zero T
+		if any(zero) == nil {
+			return zero
+		}
+	}
+	return value.(T)
+}
+
 /*
 Array[V] returns a new instance of an array collection of values.
 Any of the following argument types may be passed to this function:
@@ -298,7 +311,7 @@ func Array[V any](arguments ...any) col.ArrayLike[V] {
 		var index int = 0
 		var iterator = collection.GetIterator()
 		for iterator.HasNext() {
-			var value = iterator.GetNext().(V)
+			var value = convert[V](iterator.GetNext())
 			index++ // Array indices are ORDINAL based.
 			array.SetValue(index, value)
 		}
@@ -370,8 +383,8 @@ func Catalog[K comparable, V any](arguments ...any) col.CatalogLike[K, V] {
 		var iterator = collection.GetIterator()
 		for iterator.HasNext() {
 			var association = iterator.GetNext()
-			var key = association.GetKey().(K)
-			var value = association.GetValue().(V)
+			var key = convert[K](association.GetKey())
+			var value = convert[V](association.GetValue())
 			catalog.SetValue(key, value)
 		}
 	default:
@@ -435,7 +448,7 @@ func List[V any](arguments ...any) col.ListLike[V] {
 		// Convert the values to their real type.
 		var iterator = collection.GetIterator()
 		for iterator.HasNext() {
-			var value = iterator.GetNext().(V)
+			var value = convert[V](iterator.GetNext())
 			list.AppendValue(value)
 		}
 	default:
@@ -506,8 +519,8 @@ func Map[K comparable, V any](arguments ...any) col.MapLike[K, V] {
 		var iterator = collection.GetIterator()
 		for iterator.HasNext() {
 			var association = iterator.GetNext()
-			var key = association.GetKey().(K)
-			var value = association.GetValue().(V)
+			var key = convert[K](association.GetKey())
+			var value = convert[V](association.GetValue())
 			map_.SetValue(key, value)
 		}
 	default:
@@ -579,7 +592,7 @@ func Queue[V any](arguments ...any) col.QueueLike[V] {
 		var list = col.List[V](notation).Make()
 		var iterator = collection.GetIterator()
 		for iterator.HasNext() {
-			var value = iterator.GetNext().(V)
+			var value = convert[V](iterator.GetNext())
 			list.AppendValue(value)
 		}
 		queue = class.MakeFromSequence(list)
@@ -652,7 +665,7 @@ func Set[V any](arguments ...any) col.SetLike[V] {
 			// Convert the values to their real type.
 			var iterator = collection.GetIterator()
 			for iterator.HasNext() {
-				var value = iterator.GetNext().(V)
+				var value = convert[V](iterator.GetNext())
 				set.AddValue(value)
 			}
 		}
@@ -666,7 +679,7 @@ func Set[V any](arguments ...any) col.SetLike[V] {
 		// Convert the values to their real type.
 		var iterator = collection.GetIterator()
 		for iterator.HasNext() {
-			var value = iterator.GetNext().(V)
+			var value = convert[V](iterator.GetNext())
 			set.AddValue(value)
 		}
 	default:
@@ -739,7 +752,7 @@ func Stack[V any](arguments ...any) col.StackLike[V] {
 		var list = col.List[V](notation).Make()
 		var iterator = collection.GetIterator()
 		for iterator.HasNext() {
-			var value = iterator.GetNext().(V)
+			var value = convert[V](iterator.GetNext())
 			list.AppendValue(value)
 		}
 		stack = class.MakeFromSequence(list)
